@@ -133,6 +133,9 @@ def c15_run(ctx):
             ctx.samples.append(sample)
     ctx.extra["injection_counts"] = ks
     ctx.stats["engines"]["ancestors"] = len(ks)
+    # machine level: layer order of every delivery in generated histories (task reports, requests and vetoes made from
+    # any layer), on configurations whose states carry injections
+    machine_run("C15")(ctx)
 
 
 BIAS = {
@@ -142,6 +145,7 @@ BIAS = {
     "C09": {"menu": {"planAppend": 25, "succeed": 14, "fail": 12, "update": 40, "planClear": 4}},
     "C10": {"menu": {"planAppend": 40, "planRemove": 12, "planClear": 5, "succeed": 10, "update": 25}},
     "C12": {"menu": {"save": 8, "load": 16, "copy": 5, "construct": 5, "exit": 6, "enter": 6}},
+    "C15": {"p_act": 0.4, "menu": {"update": 40, "react": 25, "succeed": 4, "planAppend": 6}},
     "C16": {"menu": {"attachLogger": 8}},
     "C17": {"menu": {"copy": 10, "construct": 4, "destroy": 3}},
     "C11": {"menu": {"replayTransition": 6, "copy": 5}},
@@ -151,6 +155,9 @@ BIAS = {
 def machine_run(prop, streams=("random",)):
     def f(ctx):
         cfgs = MM.thorough_configs(ctx.rng) if ctx.thorough else MM.quick_configs(ctx.rng)
+        if prop == "C15":
+            cfgs = [c for c in cfgs if any(c.inj)] + [G.Config(2, L=2, cap=2, head=True, payload="none", ctx="ref", inj=[2, 1, 1]),
+                                                     G.Config(3, L=3, cap=3, head=False, manual=True, payload="u8", ctx="value", inj=[1, 3, 0, 0])]
         if prop == "C04" and (ctx.thorough or ctx.widen):
             # the largest limit the id type allows, with guards that redirect forever
             cfgs = cfgs + [G.Config(2, L=255, cap=2, head=False, payload="none", ctx="ref"),
